@@ -494,6 +494,20 @@ func (g *c18Gen) generate(thorough bool, n int) {
 		[]byte(`{"id":"gapbq","indexSchema":{"v":{"type":"vectorFlat","vectorFlat":{"vectorSize":4,"distanceMetric":"euclidean","quantizer":{"type":"binary","binary":{"threshold":0.5,"triggerThreshold":-5,"distanceMetric":"hamming"}}}}}}`)))
 	g.add(spec("gap:bq-trigger-without-threshold", "mutated", "POST", "/v2/collections", "alice", ctJ,
 		[]byte(`{"id":"gapbq","indexSchema":{"v":{"type":"vectorFlat","vectorFlat":{"vectorSize":4,"distanceMetric":"euclidean","quantizer":{"type":"binary","binary":{"triggerThreshold":50001,"distanceMetric":"hamming"}}}}}}`)))
+	// text queries whose value is valid (non-empty) but leaves no term after analysis (stop words, punctuation, blanks):
+	// alone, as the pre-filter of a vector query, and inside a composite
+	for _, v := range []string{"the", "of the and", "?!", "...", " ", "a", "THE"} {
+		for _, op := range []string{"containsAll", "containsAny"} {
+			tq := jObj("property", jStr("desc"), "text", jObj("value", jStr(v), "operator", jStr(op), "limit", jInt(10)))
+			g.add(spec("valid:text-no-terms:"+op, "valid", "POST", "/v2/collections/rich/points/search", "alice", ctJ, jObj("query", tq, "limit", jInt(10)).JSON()))
+			if v == "the" || v == "?!" {
+				g.add(spec("valid:text-no-terms-filter:"+op, "valid", "POST", "/v2/collections/rich/points/search", "alice", ctJ,
+					jObj("query", jObj("property", jStr("flat"), "vectorFlat", jObj("vector", jVec(1, 2, 2), "operator", jStr("near"), "limit", jInt(5), "filter", tq)), "limit", jInt(5)).JSON()))
+				g.add(spec("valid:text-no-terms-or:"+op, "valid", "POST", "/v2/collections/rich/points/search", "alice", ctJ,
+					jObj("query", jObj("property", jStr("_or"), "_or", jArr(tq, jObj("property", jStr("size"), "integer", jObj("value", jInt(1), "operator", jStr("greaterThan"))))), "limit", jInt(5)).JSON()))
+			}
+		}
+	}
 	g.add(spec("gap:no-index-schema", "mutated", "POST", "/v2/collections", "alice", ctJ, []byte(`{"id":"gapns"}`)))
 	g.add(spec("gap:null-index-schema", "mutated", "POST", "/v2/collections", "alice", ctM, jObj("id", jStr("gapns"), "indexSchema", jNull()).Msgpack()))
 	for _, off := range []string{"9223372036854775807", "9223372036854775800", "9223372036854775797", "4611686018427387904", "9223372036854775808"} {
